@@ -90,6 +90,13 @@ func n3lRound(t *testing.T, r *kit.Run, n, cases int, thresholds map[int]int) {
 		return
 	}
 	thresholds[n] = T
+	// NEO N3 fixes the quorum of the designated state validators: m = n - (n-1)/3 (n - f with
+	// f = (n-1)/3). A router that accepts an honest witness of fewer validators tracks a weaker set
+	// of signers than the chain's own rule.
+	if doc := n - (n-1)/3; T < doc {
+		viol(r, R+":stateroot-quorum-below-n-minus-f", fmt.Sprintf("n=%d state validators: a state root with an honest %d-of-%d witness is accepted, NEO N3 requires %d", n, T, n, doc),
+			map[string]interface{}{"router": R, "n": n, "accepted_k_of_n": T, "required_by_neo_n3": doc, "state_validators": all.PubStrings(), "magic": n3Magic})
+	}
 	tracked := n3.FromKeys(ks, T)
 	for i := 0; i < cases; i++ {
 		script := tracked
